@@ -212,6 +212,14 @@ func (e *AffEnv) ofd(v ssa.Value, depth int) Aff {
 	case *ssa.Parameter:
 		return affAtom("param:" + x.Name())
 	case *ssa.Call:
+		if f := calleeFunc(x.Common()); funcIs(f, pkgV1Util, "", "LdSize") || funcIs(f, pkgRootUtil, "", "LdSize") {
+			// LdSize(d...) = S + U(S), S = sum of len(d_i)   (checked by rule R01b)
+			sum := Aff{}
+			for _, el := range sliceLiteralElems(x.Call.Args[0]) {
+				sum = sum.add(e.lenOf(el), 1)
+			}
+			return sum.add(affAtom("U("+sum.String()+")"), 1)
+		}
 		if s := e.pureCall(x, depth); s != "" {
 			return affAtom(s)
 		}
@@ -268,10 +276,23 @@ func (e *AffEnv) pureCall(c *ssa.Call, depth int) string {
 	switch {
 	case funcIs(f, pkgVarint, "", "UvarintSize"):
 		return "U(" + e.ofd(c.Call.Args[0], depth+1).String() + ")"
+	case funcIs(f, pkgVarint, "", "PutUvarint"), funcIs(f, "encoding/binary", "", "PutUvarint"):
+		// returns the number of bytes of the encoding
+		return "U(" + e.ofd(c.Call.Args[1], depth+1).String() + ")"
 	case funcIs(f, pkgCid, "Cid", "ByteLen"):
 		return "cidlen(" + e.valName(callArgs(c.Common())[0]) + ")"
 	}
 	return ""
+}
+
+// lenOf is the affine form of len(v) for a byte slice value.
+func (e *AffEnv) lenOf(v ssa.Value) Aff {
+	if ic, _ := callOf(canon(v)); ic != nil {
+		if f := calleeFunc(ic.Common()); funcIs(f, pkgCid, "Cid", "Bytes") {
+			return affAtom("cidlen(" + e.valName(callArgs(ic.Common())[0]) + ")")
+		}
+	}
+	return affAtom("len(" + e.valName(v) + ")")
 }
 
 func (e *AffEnv) valName(v ssa.Value) string {
